@@ -69,7 +69,13 @@ type faultPlan struct {
 	// acceptance but the FIRST meta-data rewrite of the victim - it is opened by
 	// the scripted downstream when the victim's first attempt starts and shut
 	// when its second attempt starts.
-	Rewrite    bool
+	Rewrite bool
+	// ReadRetry (group H, retry_read_fault_test.go; Rewrite is set too): only
+	// READ-SIDE opens of the victim's files are counted and failed, and only
+	// after the rename of that first rewrite has been issued = the opens of the
+	// retry dispatch.
+	ReadRetry  bool
+	rewritten  bool
 	firedIndex int
 	installed  bool
 
@@ -125,6 +131,19 @@ func (fp *faultPlan) hook(op osshim.Op) *osshim.Fault {
 	if !fp.armed || !strings.HasPrefix(op.Path, fp.dir+string(filepath.Separator)) || fileMsgID(op.Path) != fp.victim {
 		return nil
 	}
+	if fp.ReadRetry {
+		if op.Kind != "open-read" {
+			if op.Kind == "rename" {
+				fp.rewritten = true
+			}
+			return nil
+		}
+		if !fp.rewritten {
+			return nil
+		}
+	} else if op.Kind == "open-read" {
+		return nil
+	}
 	fp.seen++
 	fp.ops = append(fp.ops, op.Kind+"-"+fileKind(op.Path))
 	if fp.seen != fp.K {
@@ -168,6 +187,20 @@ func (fp *faultPlan) opName() string {
 		return "none"
 	}
 	return fp.firedKind + "-" + fp.firedFile
+}
+
+// ctr = prefix of the counters of the group the plan belongs to.
+func (fp *faultPlan) ctr() string {
+	if fp.ReadRetry {
+		return "io_error_retry_read"
+	}
+	return "io_error_rewrite"
+}
+
+func (fp *faultPlan) file() string {
+	fp.mu.Lock()
+	defer fp.mu.Unlock()
+	return fp.firedFile
 }
 
 func (fp *faultPlan) counterName() string {
